@@ -533,4 +533,32 @@ mod verif_replay_interp {
             assert_eq!(run(&delay_doc(c), &[]), fin("pass"), "content {}", c);
         }
     }
+
+    const DONE_INTERNAL: &str = r###"<scxml xmlns="http://www.w3.org/2005/07/scxml" initial="s0" version="1.0" datamodel="rfsm-expression">
+ <state id="s0"><onentry><send event="ext"/></onentry><transition target="p"/></state>
+ <parallel id="p">
+  <state id="r1" initial="a1"><state id="a1"><transition target="f1"/></state><final id="f1"/></state>
+  <state id="r2" initial="a2"><state id="a2"><transition target="f2"/></state><final id="f2"/></state>
+  <transition event="done.state.p" target="pass"/>
+  <transition event="ext" target="extfirst"/>
+ </parallel>
+ <state id="c" initial="c1">
+  <state id="c1"><transition target="cf"/></state><final id="cf"/>
+ </state>
+ <final id="pass"/><final id="extfirst"/>
+</scxml>"###;
+
+    /// C03/C07: done.state events (of a compound state and of a parallel) are internal events: they are processed
+    /// within the macrostep, before an external event that was already waiting
+    #[test]
+    fn verif_replay_interp_done_events_before_external() {
+        assert_eq!(run(DONE_INTERNAL, &[]), fin("pass"));
+        let compound = DONE_INTERNAL
+            .replace(r#"<transition target="p"/>"#, r#"<transition target="c"/>"#)
+            .replace(
+                r#"<state id="c" initial="c1">"#,
+                r#"<state id="c" initial="c1"><transition event="done.state.c" target="pass"/><transition event="ext" target="extfirst"/>"#,
+            );
+        assert_eq!(run(&compound, &[]), fin("pass"));
+    }
 }
